@@ -463,6 +463,16 @@ def gen_case(rng, tier, bigbuf=False):
             if rng.chance(0.1) and size - off <= maxlen:
                 n = -1
         reqs.append([kind, off, n, shape])
+    # directed: one request over the whole disk (every run boundary in one call), and requests that start inside an
+    # L1 hole and run into the next L2 range that has a table
+    if size <= maxlen:
+        reqs.append(["raw", 0, size, "whole"])
+    for k in range(1, ntab):
+        if str(k - 1) not in c["l2tabs"] and str(k) in c["l2tabs"]:
+            b = k * l2n * cs
+            if 0 < b < size:
+                off = max(0, b - rng.randrange(1, 2 * cs))
+                reqs.append(["raw", off, max(1, min(size - off, b - off + rng.randint(1, 3 * cs), maxlen)), "x_l1hole"])
     c["reqs"] = reqs
     return c
 
